@@ -13,6 +13,7 @@
 import PS.Proofs.UcfgFromDftaLang
 import PS.Proofs.UcfgFromDftaCount
 import PS.Proofs.UcfgFromDftaNodup
+import PS.Proofs.UcfgFromDftaClean
 import PS.Proofs.FromCfg
 namespace PS.C06
 open PS PS.G PS.U PS.U.FD DFTA
@@ -122,6 +123,50 @@ theorem C06_programs_terminates_partial (d : Q → UNT U) (A : DFTA Sym Q) (hinj
   have := programsFrom_isSome G _ fuel hf G.starts 0 [] hb
   exact Option.isSome_iff_exists.mp this
 
+/-! ## `UCFG.clean()` (run by `from_DFTA` by default) -/
+
+/-- **`clean()` keeps the language** — of EVERY unambiguous grammar none of whose non-terminals
+    has the type `UnknownType` (the type of the end-of-derivation marker, which `clean()` does not
+    expand), for every number of iterations after which it returns. -/
+theorem C06_clean_lang (G : UCFG U) (hK : ∀ k ∈ AList.keys G.rules, k.1 ≠ Ty.unknown) (fuel : Nat)
+    (Gc : UCFG U) (h : clean G fuel = some Gc) (t : Prog) : contains Gc t = contains G t :=
+  CL.clean_contains G hK fuel Gc h t
+
+/-- **start symbols.** `clean()` returns a subset of the start symbols and keeps every start
+    symbol from which some program derives … -/
+theorem C06_clean_starts (G : UCFG U) (hK : ∀ k ∈ AList.keys G.rules, k.1 ≠ Ty.unknown) (fuel : Nat)
+    (Gc : UCFG U) (h : clean G fuel = some Gc) (s : UNT U) :
+    (s ∈ Gc.starts → s ∈ G.starts) ∧
+    (s ∈ G.starts → ∀ t, derivs G t s ≠ [] → s ∈ Gc.starts ∧ derivs Gc t s ≠ []) := by
+  refine ⟨?_, fun hs t hne => CL.clean_keeps G hK fuel Gc h t s hs hne⟩
+  obtain ⟨st, _, _, _, _, hstarts⟩ := CL.clean_eq G fuel Gc h
+  intro hs
+  rw [hstarts] at hs
+  exact (List.mem_filter.mp hs).1
+
+/-- … and never creates a derivation. -/
+theorem C06_clean_sound (G : UCFG U) (fuel : Nat) (Gc : UCFG U) (h : clean G fuel = some Gc)
+    (t : Prog) (s : UNT U) (hne : derivs Gc t s ≠ []) : derivs G t s ≠ [] :=
+  CL.clean_derivs_sub G fuel Gc h t s hne
+
+/-- **what `clean()` guarantees**: its set `done` of (pending stack, non-terminal) pairs contains
+    `([], S)` for every start symbol and is closed under `derive` (each pair is an end marker or
+    has a row, and all results of `derive` on that row are in `done`); the non-terminal of every
+    pair is in `reached`, and the rows kept are exactly those of `reached` non-terminals. -/
+theorem C06_clean_done_closed (G : UCFG U) (fuel : Nat) (st : CleanSt U)
+    (h : cleanState G fuel = some st) :
+    (∀ s ∈ G.starts, ([], s) ∈ st.done) ∧
+    (∀ c ∈ st.done, c.2.1 = Ty.unknown ∨ CL.Expanded G st.done c) ∧
+    (∀ c ∈ st.done, c.2 ∈ st.reached) :=
+  CL.clean_done_closed G fuel st h
+
+/-- `from_DFTA` with its default `clean=True`: the language is still the automaton's. -/
+theorem C06_clean_fromDFTA_partial (d : Q → UNT U) (A : DFTA Sym Q) (hd : A.Det) (hinj : InjOn d A)
+    (G : UCFG U) (h : fromDFTA d A = some G) (hK : ∀ k ∈ AList.keys G.rules, k.1 ≠ Ty.unknown)
+    (fuel : Nat) (Gc : UCFG U) (hc : clean G fuel = some Gc) (t : Prog) :
+    contains Gc t = A.accepts t := by
+  rw [C06_clean_lang G hK fuel Gc hc t, C06_lang_partial d A hd hinj G h t]
+
 /-! ## with the Python state values and `__d2state__` -/
 
 theorem injOn_of_d2Injective (fixed : Bool) (A : DFTA Sym PyVal) (h : d2Injective fixed A = true) :
@@ -206,6 +251,10 @@ def rk : PyVal → Nat
   | _ => 0
 example : Acyclic plain := ⟨rk, by decide⟩
 example : ∃ G, fromDFTAPy false plain = some G ∧ programs G 10 = some 4 := ⟨_, rfl, by decide⟩
+
+example : ∃ G Gc, fromDFTAPy false plain = some G ∧ clean G 100 = some Gc ∧ Gc.rules.length = 4 ∧
+    Gc.starts.length = 2 ∧ (∀ k ∈ AList.keys G.rules, k.1 ≠ Ty.unknown) :=
+  ⟨_, _, rfl, rfl, by decide, by decide, by decide⟩
 
 /-- states of the shape the sharpening pipeline produces after two constraints and a sketch:
     a product `(class, state)` whose first component is a one-element class of `minimise`
